@@ -115,3 +115,51 @@ Example C20_example :
                                      OAutoNotify false; ORemove 0 [4;5;6]; OSave]))
   = [[WAdd 0 [1;2;3]]; []; [WUpdatePolicy [1;2;3] [4;5;6]]; []; []; [WSave]].
 Proof. vm_compute. reflexivity. Qed.
+
+(* ---------------------------------------------------------------------------------------------------------------
+   Read off the SOURCE (casbin/internal_enforcer.py re-translated on every run, see Props/C09.v and InternalTie.v):
+   the regenerated _add_policy sends nothing when it reports failure, and exactly one notification - the operation's own
+   callback iff the watcher offers it, else update() - when it reports success with adapter, auto-save, watcher and
+   auto-notify on; the regenerated update / filtered-removal methods are Mgmt.v's steps, whose notifications the theorems
+   above characterise. *)
+From PyCasbin Require IntLang InternalTie.
+From PyCasbinGen Require InternalGen.
+
+Theorem C20_source_add_notifies_once : forall E l r,
+  let '(v, _, ac, wc) := IntLang.irun E InternalGen.internal_gen InternalTie.IFUEL InternalGen.im_add_policy l [IntLang.ARule r] in
+  (v = Ok (IntLang.IVB false) -> ac = [] /\ wc = []) /\
+  (v = Ok (IntLang.IVB true) -> IntLang.ie_adapter E && IntLang.ie_auto_save E = true ->
+   IntLang.ie_watcher E && IntLang.ie_auto_notify E = true ->
+   ac = [AAdd (IntLang.ie_pt E) r] /\ wc = [if IntLang.ie_offers_ex E then WAdd (IntLang.ie_pt E) r else WUpdate]).
+Proof. exact InternalTie.src_add_notifies_once. Qed.
+Print Assumptions C20_source_add_notifies_once.
+
+Theorem C20_source_update : forall k s o n,
+  IntLang.irun (InternalTie.env_of k s PT_P) InternalGen.internal_gen InternalTie.IFUEL InternalGen.im_update_policy
+    (m_p s) [IntLang.ARule o; IntLang.ARule n] =
+  match update_policy (prio_tok k PT_P) (m_p s) o n with
+  | Err c => (Err c, m_p s, [], [])
+  | Ok (l', b) =>
+      if negb b then (Ok (IntLang.IVB false), l', [], [])
+      else if use_adapter k s then (Ok (IntLang.IVB true), l', [AUpdate PT_P o n], notify k s (WUpdatePolicy o n) 3)
+      else (Ok (IntLang.IVB true), l', [], [])
+  end.
+Proof. exact InternalTie.src_update. Qed.
+Print Assumptions C20_source_update.
+
+Theorem C20_source_remove_filtered : forall k s pt i vs,
+  IntLang.irun (InternalTie.env_of k s pt) InternalGen.internal_gen InternalTie.IFUEL InternalGen.im_remove_filtered_policy
+    (get_store s pt) [IntLang.ANat i; IntLang.ANames vs] =
+  match i_remove_filtered k s pt i vs with
+  | Err c => (Err c, get_store s pt, [], [])
+  | Ok (s', b, ac, wc) => (Ok (IntLang.IVB b), get_store s' pt, ac, wc)
+  end.
+Proof. exact InternalTie.src_i_remove_filtered. Qed.
+Print Assumptions C20_source_remove_filtered.
+
+Theorem C20_source_add_many : forall k s pt rs,
+  IntLang.irun (InternalTie.env_of k s pt) InternalGen.internal_gen InternalTie.IFUEL InternalGen.im_add_policies
+    (get_store s pt) [IntLang.ARules rs] =
+  let '(s', b, ac, wc) := i_add_many k s pt rs in (Ok (IntLang.IVB b), get_store s' pt, ac, wc).
+Proof. exact InternalTie.src_i_add_many. Qed.
+Print Assumptions C20_source_add_many.
